@@ -110,24 +110,27 @@ Record state := mkState
   ; next_iid : N
   ; next_ph : N
   ; leaked : N                            (* self_and_iter records never freed *)
-  ; trace : list event }.                 (* most recent first *)
+  ; trace : list event                    (* most recent first *)
+  ; shared : list (N * bool) }.           (* trackables held through shared ownership: (t, program handle released) *)
 
-Definition st0 : state := mkState [] [] [] [] [] [] [] 0 0 0 0 0 [].
+Definition st0 : state := mkState [] [] [] [] [] [] [] 0 0 0 0 0 [] [].
 
 (* setters *)
-Definition with_slots v (s : state) := mkState v (skind s) (sigs s) (impls s) (tracks s) (conns s) (sconns s) (next_rid s) (next_nid s) (next_iid s) (next_ph s) (leaked s) (trace s).
-Definition with_skind v (s : state) := mkState (slots s) v (sigs s) (impls s) (tracks s) (conns s) (sconns s) (next_rid s) (next_nid s) (next_iid s) (next_ph s) (leaked s) (trace s).
-Definition with_sigs v (s : state) := mkState (slots s) (skind s) v (impls s) (tracks s) (conns s) (sconns s) (next_rid s) (next_nid s) (next_iid s) (next_ph s) (leaked s) (trace s).
-Definition with_impls v (s : state) := mkState (slots s) (skind s) (sigs s) v (tracks s) (conns s) (sconns s) (next_rid s) (next_nid s) (next_iid s) (next_ph s) (leaked s) (trace s).
-Definition with_tracks v (s : state) := mkState (slots s) (skind s) (sigs s) (impls s) v (conns s) (sconns s) (next_rid s) (next_nid s) (next_iid s) (next_ph s) (leaked s) (trace s).
-Definition with_conns v (s : state) := mkState (slots s) (skind s) (sigs s) (impls s) (tracks s) v (sconns s) (next_rid s) (next_nid s) (next_iid s) (next_ph s) (leaked s) (trace s).
-Definition with_sconns v (s : state) := mkState (slots s) (skind s) (sigs s) (impls s) (tracks s) (conns s) v (next_rid s) (next_nid s) (next_iid s) (next_ph s) (leaked s) (trace s).
-Definition with_next_rid v (s : state) := mkState (slots s) (skind s) (sigs s) (impls s) (tracks s) (conns s) (sconns s) v (next_nid s) (next_iid s) (next_ph s) (leaked s) (trace s).
-Definition with_next_nid v (s : state) := mkState (slots s) (skind s) (sigs s) (impls s) (tracks s) (conns s) (sconns s) (next_rid s) v (next_iid s) (next_ph s) (leaked s) (trace s).
-Definition with_next_iid v (s : state) := mkState (slots s) (skind s) (sigs s) (impls s) (tracks s) (conns s) (sconns s) (next_rid s) (next_nid s) v (next_ph s) (leaked s) (trace s).
-Definition with_next_ph v (s : state) := mkState (slots s) (skind s) (sigs s) (impls s) (tracks s) (conns s) (sconns s) (next_rid s) (next_nid s) (next_iid s) v (leaked s) (trace s).
-Definition with_leaked v (s : state) := mkState (slots s) (skind s) (sigs s) (impls s) (tracks s) (conns s) (sconns s) (next_rid s) (next_nid s) (next_iid s) (next_ph s) v (trace s).
-Definition with_trace v (s : state) := mkState (slots s) (skind s) (sigs s) (impls s) (tracks s) (conns s) (sconns s) (next_rid s) (next_nid s) (next_iid s) (next_ph s) (leaked s) v.
+Definition with_slots v (s : state) := mkState v (skind s) (sigs s) (impls s) (tracks s) (conns s) (sconns s) (next_rid s) (next_nid s) (next_iid s) (next_ph s) (leaked s) (trace s) (shared s).
+Definition with_skind v (s : state) := mkState (slots s) v (sigs s) (impls s) (tracks s) (conns s) (sconns s) (next_rid s) (next_nid s) (next_iid s) (next_ph s) (leaked s) (trace s) (shared s).
+Definition with_sigs v (s : state) := mkState (slots s) (skind s) v (impls s) (tracks s) (conns s) (sconns s) (next_rid s) (next_nid s) (next_iid s) (next_ph s) (leaked s) (trace s) (shared s).
+Definition with_impls v (s : state) := mkState (slots s) (skind s) (sigs s) v (tracks s) (conns s) (sconns s) (next_rid s) (next_nid s) (next_iid s) (next_ph s) (leaked s) (trace s) (shared s).
+Definition with_tracks v (s : state) := mkState (slots s) (skind s) (sigs s) (impls s) v (conns s) (sconns s) (next_rid s) (next_nid s) (next_iid s) (next_ph s) (leaked s) (trace s) (shared s).
+Definition with_conns v (s : state) := mkState (slots s) (skind s) (sigs s) (impls s) (tracks s) v (sconns s) (next_rid s) (next_nid s) (next_iid s) (next_ph s) (leaked s) (trace s) (shared s).
+Definition with_sconns v (s : state) := mkState (slots s) (skind s) (sigs s) (impls s) (tracks s) (conns s) v (next_rid s) (next_nid s) (next_iid s) (next_ph s) (leaked s) (trace s) (shared s).
+Definition with_next_rid v (s : state) := mkState (slots s) (skind s) (sigs s) (impls s) (tracks s) (conns s) (sconns s) v (next_nid s) (next_iid s) (next_ph s) (leaked s) (trace s) (shared s).
+Definition with_next_nid v (s : state) := mkState (slots s) (skind s) (sigs s) (impls s) (tracks s) (conns s) (sconns s) (next_rid s) v (next_iid s) (next_ph s) (leaked s) (trace s) (shared s).
+Definition with_next_iid v (s : state) := mkState (slots s) (skind s) (sigs s) (impls s) (tracks s) (conns s) (sconns s) (next_rid s) (next_nid s) v (next_ph s) (leaked s) (trace s) (shared s).
+Definition with_next_ph v (s : state) := mkState (slots s) (skind s) (sigs s) (impls s) (tracks s) (conns s) (sconns s) (next_rid s) (next_nid s) (next_iid s) v (leaked s) (trace s) (shared s).
+Definition with_leaked v (s : state) := mkState (slots s) (skind s) (sigs s) (impls s) (tracks s) (conns s) (sconns s) (next_rid s) (next_nid s) (next_iid s) (next_ph s) v (trace s) (shared s).
+Definition with_trace v (s : state) := mkState (slots s) (skind s) (sigs s) (impls s) (tracks s) (conns s) (sconns s) (next_rid s) (next_nid s) (next_iid s) (next_ph s) (leaked s) v (shared s).
+
+Definition with_shared v (s : state) := mkState (slots s) (skind s) (sigs s) (impls s) (tracks s) (conns s) (sconns s) (next_rid s) (next_nid s) (next_iid s) (next_ph s) (leaked s) (trace s) v.
 
 Definition emit_ev (e : event) (s : state) : state := with_trace (e :: trace s) s.
 
@@ -781,6 +784,8 @@ Inductive op :=
 | OTAssign (td ts : N)
 | OTMoveAssign (td ts : N)
 | OTNotify (t : N)
+| OTNewShared (t : N)      (* a trackable held through shared ownership (std::shared_ptr) by the program and by functors *)
+| OTRelease (t : N)        (* the program drops its handle: the object dies with its last owning functor copy *)
 | OSNew (s : N) (rk : rkind) (body : N) (refs : list N)
 | OSEmpty (s : N) (rk : rkind)
 | OSCopy (sn so : N)
@@ -828,6 +833,7 @@ Inductive op :=
 Record program := mkProg
   { p_scripts : list (N * (list op * retspec))
   ; p_accs : list (N * list accop)
+  ; p_owns : list (N * list N)      (* functor body -> shared trackables every copy of that functor co-owns *)
   ; p_main : list op }.
 
 Inductive outcome (A : Type) :=
@@ -1112,6 +1118,45 @@ Section Interp.
         end
     end.
 
+  (* ---- shared ownership of trackables by functors ----
+     A functor copy whose body is listed in p_owns holds a std::shared_ptr to each of those
+     trackables; the object is destroyed when the program has released its own handle and the last
+     such functor copy has been destroyed.  In the C++ the destruction happens inside the library
+     call that destroys the last functor copy; no user code can run between that moment and the end
+     of the operation in progress, so the model performs it at the end of the operation. *)
+  Definition owns (b : N) : list N := match aget b (p_owns prog) with Some l => l | None => [] end.
+
+  Definition owner_count (t : N) (st : state) : N :=
+    count_if (fun b => existsb (N.eqb t) (owns b)) (live_functors st).
+
+  Definition is_released (t : N) (st : state) : bool :=
+    match aget t (shared st) with Some true => true | _ => false end.
+  Definition is_shared (t : N) (st : state) : bool :=
+    match aget t (shared st) with Some _ => true | None => false end.
+  (* a trackable the program can still name: live and its handle not released *)
+  Definition prog_track (t : N) (st : state) : option trackable :=
+    if is_released t st then None else live_track t st.
+
+  Fixpoint find_orphan (l : list (N * bool)) (st : state) : option N :=
+    match l with
+    | [] => None
+    | (t, rel) :: r =>
+        if rel && match live_track t st with Some _ => true | None => false end && N.eqb (owner_count t st) 0
+        then Some t else find_orphan r st
+    end.
+
+  Fixpoint gc (fuel : nat) (st : state) : res state :=
+    match find_orphan (shared st) st with
+    | None => Ok st
+    | Some t =>
+        match fuel with
+        | O => Err ErrLoop
+        | S f => st1 <- track_notify t st ;; gc f (with_tracks (aset t None (tracks st1)) st1)
+        end
+    end.
+
+  Definition gc_shared (st : state) : res state := gc (S (List.length (shared st))) st.
+
   (* ---- the operations ---- *)
 
   Definition skip (st : state) : outcome unit := Done (emit_ev ESkip st) tt.
@@ -1202,32 +1247,44 @@ Section Interp.
     | OTNew t =>
         if fresh_track t st && N.ltb t 1000 then Done (with_tracks (aset t (Some (mkTr None false)) (tracks st)) st) tt
         else skip st
+    | OTNewShared t =>
+        if fresh_track t st && N.ltb t 1000
+        then Done (with_shared (aset t false (shared st)) (with_tracks (aset t (Some (mkTr None false)) (tracks st)) st)) tt
+        else skip st
+    | OTRelease t =>
+        match live_track t st with
+        | Some _ => if is_shared t st && negb (is_released t st)
+                    then Done (with_shared (aset t true (shared st)) st) tt else skip st
+        | None => skip st
+        end
     | OTDel t =>
         match live_track t st with
-        | Some _ => if N.ltb t 1000
+        | Some _ => if N.ltb t 1000 && negb (is_shared t st)
                     then liftu (st1 <- track_notify t st ;; Ok (with_tracks (aset t None (tracks st1)) st1))
                     else skip st
         | None => skip st
         end
     | OTAssign td ts =>
-        match live_track td st, live_track ts st with
+        match prog_track td st, prog_track ts st with
         | Some _, Some _ => if N.eqb td ts then Done st tt else liftu (track_notify td st)
         | _, _ => skip st
         end
     | OTMoveAssign td ts =>
-        match live_track td st, live_track ts st with
+        match prog_track td st, prog_track ts st with
         | Some _, Some _ => if N.eqb td ts then Done st tt
                             else liftu (st1 <- track_notify td st ;; track_notify ts st1)
         | _, _ => skip st
         end
     | OTNotify t =>
-        match live_track t st with
+        match prog_track t st with
         | Some _ => liftu (track_notify t st)
         | None => skip st
         end
     (* ---- slots ---- *)
     | OSNew s rk body refs =>
-        if fresh_slot s st && forallb (fun t => match live_track t st with Some _ => true | None => false end) refs
+        if fresh_slot s st
+           && forallb (fun t => match live_track t st with Some _ => negb (is_released t st) | None => false end) refs
+           && forallb (fun t => negb (fresh_track t st)) (owns body)
         then
           let rid := next_rid st in
           let st1 := with_next_rid (rid + 1) st in
@@ -1591,7 +1648,7 @@ Section Interp.
     | [] => Done st tt
     | o :: r =>
         match step o st with
-        | Done st1 _ => run_ops r st1
+        | Done st1 _ => match gc_shared st1 with Ok st2 => run_ops r st2 | Err e => Fail e end
         | Thrown st1 => Thrown st1
         | Fail e => Fail e
         end
@@ -1626,8 +1683,8 @@ Fixpoint run_top (prog : program) (fuel : nat) (ops : list op) (st : state) : re
   | [] => Ok st
   | o :: r =>
       match step prog (run_callee_fuel prog fuel) o st with
-      | Done st1 _ => run_top prog fuel r st1
-      | Thrown st1 => run_top prog fuel r (emit_ev EExn st1)
+      | Done st1 _ => st2 <- gc_shared prog st1 ;; run_top prog fuel r st2
+      | Thrown st1 => st2 <- gc_shared prog (emit_ev EExn st1) ;; run_top prog fuel r st2
       | Fail e => Err e
       end
   end.
